@@ -476,10 +476,10 @@ func (in *Interp) exec(st *State, s ast.Stmt) (*State, bool) {
 			if x.Label != nil {
 				lbl = x.Label.Name
 			}
-			in.breaks = append(in.breaks, &brk{label: lbl, st: st.clone(), guard: in.guard()})
+			in.breaks = append(in.breaks, &brk{label: lbl, st: st.clone(), guard: in.guard(), conds: append([]string(nil), in.guards...)})
 			return st, true
 		case token.CONTINUE:
-			in.continues = append(in.continues, &brk{st: st.clone(), guard: in.guard()})
+			in.continues = append(in.continues, &brk{st: st.clone(), guard: in.guard(), conds: append([]string(nil), in.guards...)})
 			return st, true
 		case token.GOTO:
 			in.note(x.Pos(), "goto not summarised")
@@ -506,6 +506,7 @@ type brk struct {
 	label string
 	st    *State
 	guard string
+	conds []string // the guard stack at the statement
 }
 
 // isPlainRead: the RHS is exactly one read (possibly converted).
@@ -567,9 +568,11 @@ func (in *Interp) execIf(st *State, x *ast.IfStmt) (*State, bool) {
 	in.assume(sa, x.Cond, true)
 	in.guards = append(in.guards, c)
 	r0 := len(in.Rets)
+	j0 := len(in.continues) + len(in.breaks)
 	sa, ta := in.execBlock(sa, x.Body.List)
 	in.guards = in.guards[:len(in.guards)-1]
 	r1 := len(in.Rets)
+	j1 := len(in.continues) + len(in.breaks)
 	sb := st.clone()
 	in.assume(sb, x.Cond, false)
 	tb := false
@@ -579,6 +582,7 @@ func (in *Interp) execIf(st *State, x *ast.IfStmt) (*State, bool) {
 		in.guards = in.guards[:len(in.guards)-1]
 	}
 	r2 := len(in.Rets)
+	j2 := len(in.continues) + len(in.breaks)
 	// an arm that ends in a successful return (not an error exit, not a break/continue) splits the
 	// successful executions: what follows belongs to the other arm only
 	okReturn := func(lo, hi int) bool {
@@ -597,12 +601,13 @@ func (in *Interp) execIf(st *State, x *ast.IfStmt) (*State, bool) {
 	case ta && tb:
 		return sa, true
 	case ta:
-		if okReturn(r0, r1) {
+		// … and so does an arm that ends the iteration (continue / break) without returning
+		if okReturn(r0, r1) || (r1 == r0 && j1 > j0) {
 			in.contGuard = negCond(c)
 		}
 		return sb, false
 	case tb:
-		if okReturn(r1, r2) {
+		if okReturn(r1, r2) || (r2 == r1 && j2 > j1) {
 			in.contGuard = c
 		}
 		return sa, false
@@ -1327,8 +1332,22 @@ func (in *Interp) execRange(st *State, x *ast.RangeStmt) (*State, bool) {
 	in.breaks, in.continues = nil, nil
 	nrets := len(in.Rets)
 	nstores := len(in.Stores)
+	nGuardsAtEntry := len(in.guards)
 	after, term := in.execBlock(body, x.Body.List)
 	hadBreak := len(in.breaks) > 0
+	// an iteration that ends early by `continue` leaves the state it had there: the state at the end of an
+	// iteration is the join of the fall-through state and the states at the continue statements
+	for _, c := range in.continues {
+		rel := "true"
+		if len(c.conds) > nGuardsAtEntry {
+			rel = strings.Join(c.conds[nGuardsAtEntry:], " && ")
+		}
+		if term {
+			after, term = c.st, false
+		} else {
+			after = in.join(rel, c.st, after)
+		}
+	}
 	in.breaks, in.continues = saveB, saveC
 	in.loops = in.loops[:len(in.loops)-1]
 	// returns inside a range loop must be error exits
